@@ -5,7 +5,7 @@
 d=$1; wt=$2
 cd $wt || exit 2
 git checkout -q --detach $(git -C /repo rev-parse HEAD) 2>/dev/null; git checkout -q -- . ; git clean -qfd -e target
-run() { cargo test --workspace --no-fail-fast --offline 2>&1 | tee /tmp/confirm.$$.log | grep -E "^test result" | awk '{p+=$4; f+=$6} END {print p" "f}'; }
+run() { timeout 420 cargo test --workspace --no-fail-fast --offline 2>&1 | tee /tmp/confirm.$$.log | grep -E "^test result" | awk '{p+=$4; f+=$6} END {print p" "f}'; }
 failed() { grep -E "^test .* FAILED$|^    [a-z_:]+$" /tmp/confirm.$$.log | grep -v "^test " | sort -u | tr '\n' ' '; }
 git apply $d/patch.diff || { echo '{"applies": false}' > $d/confirm.json; exit 1; }
 r1=$(run); f1=$(failed)
